@@ -47,7 +47,8 @@ RULE = ("values = all constructor expressions of the grammar (leaves {0,1,-1,1.5
         "over fixed representative child pools (sizes reported under coverage.universe). Every value: key computed, hashed, "
         "recomputed on an independently rebuilt copy and in two child interpreters; every ordered pair of values: key "
         "equality vs reference identity; memoize: all ordered pairs of a look-alike list x 7 cache configurations x 2 call "
-        "styles with a call counter. distinct = distinct expression (pair); non-trivial = ordered pair of different "
+        "styles with a call counter, and all ordered pairs of 31 look-alike call shapes (the same values packaged differently into "
+        "positional/keyword arguments of f(*args, **kwargs)) x 4 caches. distinct = distinct expression (pair); non-trivial = ordered pair of different "
         "expressions with the same multiset of data leaves (look-alikes: same rendered content, other type/structure/order)")
 ASSUMPTIONS = [
     "the reference identity `canon` (exact-type structural equality) is what 'equal value of the same type' means; "
@@ -1109,6 +1110,61 @@ def check_memo(tab, i, j, cfg, call, cache=None, notes=None):
     return []
 
 
+# ---- memoize: look-alike CALL SHAPES (how the values are packaged into positional / keyword arguments) ----------
+# python literals; the call is f(*args, **kwargs) on ``def f(*args, **kwargs)``
+SHAPES = [
+    "(), {}", "((),), {}", "({},), {}", "((), {}), {}", "(((), {}),), {}",
+    "(1,), {}", "((1,),), {}", "([1],), {}", "(1, {}), {}", "((1,), {}), {}",
+    "(1, 2), {}", "((1, 2),), {}", "([1, 2],), {}", "(2, 1), {}",
+    "(1,), {'k': 2}", "((1,), {'k': 2}), {}", "(1, {'k': 2}), {}", "(1, ('k', 2)), {}", "(((1,), {'k': 2}),), {}",
+    "(1,), {'k': 1}", "(2,), {'k': 1}", "(), {'k': 1}", "({'k': 1},), {}", "(('k', 1),), {}", "((), {'k': 1}), {}", "(), {'j': 1}",
+    "(), {'a': 1, 'b': 2}", "(), {'b': 2, 'a': 1}", "(), {'a': 2, 'b': 1}", "((), {'a': 1, 'b': 2}), {}", "(), {'a': 1}",
+]
+
+
+def _shape(sh):
+    args, kwargs = eval("(" + sh + ")", {})  # noqa: S307  (own literals)
+    return args, kwargs
+
+
+def _shape_id(sh):
+    args, kwargs = _shape(sh)
+    return repr((args, sorted(kwargs.items())))
+
+
+def check_memo_shape(sa, sb, cfg):
+    """f(*A, **KA) then f(*B, **KB) through memoize: a stored result may only come back for an equal call"""
+    folder = boot.mkscratch("c15-disk-")
+    cache = make_cache(cfg, folder)
+    try:
+        calls = []
+
+        @pc.memoize(cache=cache)
+        def f(*args, **kwargs):
+            calls.append(1)
+            return ("r", len(calls))
+
+        (a, ka), (b, kb) = _shape(sa), _shape(sb)
+        try:
+            with warnings.catch_warnings():
+                warnings.simplefilter("ignore")
+                r1, r2 = f(*a, **ka), f(*b, **kb)
+        except Exception as e:  # noqa: BLE001
+            return [(findings.exc_sig(e, op="memoize-call-shape", cache=cfg), f"memoize(cache={cfg}) f({sa}); f({sb}) raised {e!r}")], "raised"
+    finally:
+        del cache
+        gc.collect()
+        shutil.rmtree(folder, ignore_errors=True)
+    same = _shape_id(sa) == _shape_id(sb)
+    if r1 != ("r", 1) or r2 not in (("r", 1), ("r", 2)) or len(calls) != r2[1]:
+        return [({"kind": "memoize-wrong-result", "cache": cfg, "op": "call-shape"}, f"memoize(cache={cfg}): f({sa}) -> {r1!r}, f({sb}) -> {r2!r}")], "odd"
+    if r2 == ("r", 1) and not same:
+        return [({"kind": "memoize-stale-hit", "cache": cfg, "op": "call-shape"},
+                 f"memoize(cache={cfg}): the call f(*args, **kwargs) with (args, kwargs) = {sb} returned the result stored for "
+                 f"(args, kwargs) = {sa} without calling f")], "hit"
+    return [], ("hit" if r2 == ("r", 1) else "miss")
+
+
 # ------------------------------------------------------------------------------------------------
 def run_case(case):
     op = case["op"]
@@ -1123,6 +1179,8 @@ def run_case(case):
         res = run_children(tab.descs, case["seeds"])
         pos = list(range(len(tab.descs)))
         return check_xproc(tab, tab.idx(case["v"]), res, pos, case["seeds"])
+    if op == "memo-shape":
+        return check_memo_shape(case["a"], case["b"], case["cache"])[0]
     if op == "memo":
         tab = Table([case["a"], case["b"]])
         return check_memo(tab, tab.idx(case["a"]), tab.idx(case["b"]), case["cache"], case["call"])
@@ -1164,6 +1222,7 @@ def plan(tier, seed):
             for cfg in CACHES:
                 n = {"lru-shared": 16, "hybrid-shared": 8, "disk": 4, "disk-nolru": 4}.get(cfg, 2)
                 units += [("memoize", ("memo", cfg, c, n)) for c in range(n)]
+            units += [("memoize-call-shapes", ("memo-shape", cfg)) for cfg in ("simple", "lru", "hybrid", "disk")]
     table(maxd)  # built once here: the runner forks its workers after plan(), so they inherit it copy-on-write
     groups: dict = {}
     for u in units:
@@ -1368,6 +1427,17 @@ def run_unit(unit):  # noqa: C901, PLR0912, PLR0915
             del cache
             gc.collect()
             shutil.rmtree(folder, ignore_errors=True)
+    elif kind == "memo-shape":
+        cfg = unit[1]
+        for sa in SHAPES:
+            for sb in SHAPES:
+                res, oc = check_memo_shape(sa, sb, cfg)
+                same = _shape_id(sa) == _shape_id(sb)
+                acc.case(("memo-shape", cfg, sa, sb) if sa != sb else None)
+                acc.stratum(f"memoize-call-shape:{cfg}:{'equal call' if same else 'different call'}")
+                acc.outcome(("memo-shape", same, oc))
+                record({"op": "memo-shape", "cache": cfg, "a": sa, "b": sb}, res)
+        acc.sample({"op": "memo-shape", "cache": cfg, "a": "(1,), {'k': 2}", "b": "((1,), {'k': 2}), {}"})
     else:
         raise ValueError(kind)
     return acc
@@ -1387,5 +1457,5 @@ def finalize(total, tier):
                                                "mapping-value": len(V1), "object-array-cell": len(O1)},
                         "depth3_child_pools": ({"pair": len(H2), "hashable": len(HK2), "mapping-key-pair": len(HKM2),
                                                 "mapping-value": len(V2), "object-array-cell": len(O2)} if maxd >= 3 else None)},
-        "memoize_values": len(memo_values()), "cache_configurations": CACHES, "call_styles": CALLS,
+        "memoize_values": len(memo_values()), "cache_configurations": CACHES, "call_styles": CALLS, "call_shapes": SHAPES,
         "child_interpreter_hashseeds": child_seeds(int(os.environ.get("VERIF_SEED", "0") or 0))}}
